@@ -52,7 +52,7 @@ def _names():
 
 
 def strategy(tier):
-  meth = st.tuples(_names(), st.sampled_from(sorted(SIGS))).map(list)
+  meth = st.tuples(_names(), st.sampled_from(sorted(SIGS)), st.sampled_from([False, False, False, True])).map(list)
   call = st.fixed_dictionaries({
       'm': st.integers(0, 20), 'nargs': st.integers(0, 4), 'kw': st.lists(st.sampled_from(['a', 'b', 'x', 'timeout']), max_size=3, unique=True),
       'mode': st.sampled_from(['async_pending', 'async_ok', 'async_fail', 'sync_ok', 'sync_fail']),
@@ -100,9 +100,14 @@ class _Disp(object):
 
 def _mk_class(name, methods, bases):
   ns = {}
-  for n, sig in methods:
+  for meth in methods:
+    n, sig = meth[0], meth[1]
     d = {}
     exec(SIGS[sig].format(n=n), d)
+    if len(meth) > 2 and meth[2]:
+      # what a decorator without functools.wraps leaves behind: the attribute is the method's name, not __name__
+      d[n].__name__ = 'wrapper'
+      d[n].__qualname__ = name + '.wrapper'
     ns[n] = d[n]
   ns['__module__'] = 'vf.generated.' + name
   return type(name, bases, ns)
